@@ -4,6 +4,7 @@ package qframe
 
 import (
 	"errors"
+	"io"
 
 	"github.com/tobgu/qframe/config/csv"
 	"github.com/tobgu/qframe/internal/vx"
@@ -11,8 +12,15 @@ import (
 
 var vxBoom = errors.New("boom")
 
+// vxWrapEOF is a genuine failure whose Unwrap chain contains io.EOF (as in "read tcp: connection reset: EOF").
+type vxWrapEOF struct{}
+
+func (vxWrapEOF) Error() string { return "connection closed by peer: EOF" }
+func (vxWrapEOF) Unwrap() error { return io.EOF }
+
 // vxFailReader delivers d in chunks and fails with a non-EOF error once failAt bytes were delivered.
 type vxFailReader struct {
+	err      error // the failure
 	d        []byte
 	pos      int
 	failAt   int
@@ -22,12 +30,12 @@ type vxFailReader struct {
 
 func (r *vxFailReader) Read(p []byte) (int, error) {
 	if r.pos >= r.failAt {
-		return 0, vxBoom
+		return 0, r.err
 	}
 	if r.withData && r.failAt-r.pos <= len(p) && (r.chunk == 0 || r.failAt-r.pos <= r.chunk) {
 		n := copy(p, r.d[r.pos:r.failAt])
 		r.pos += n
-		return n, vxBoom
+		return n, r.err
 	}
 	n := r.failAt - r.pos
 	if len(p) < n {
@@ -50,7 +58,11 @@ func VX_C15_readcsv() {
 	if vx.HasParam("types") {
 		opts = append(opts, csv.Types(map[string]string{"a": vx.ParamStr("types"), "b": vx.ParamStr("types")}))
 	}
-	f := ReadCSV(&vxFailReader{d: doc, failAt: failAt, chunk: chunk, withData: vx.Bool()}, opts...)
+	var ferr error = vxBoom
+	if vx.Bool() {
+		ferr = vxWrapEOF{} // not io.EOF itself: a failure, whatever it wraps
+	}
+	f := ReadCSV(&vxFailReader{d: doc, failAt: failAt, chunk: chunk, withData: vx.Bool(), err: ferr}, opts...)
 	vx.Check(f.Err != nil, "a failing reader is reported through Err")
 	vx.Check(f.Len() == -1, "no rows are exposed after a read failure")
 	vx.Reach("end")
@@ -104,5 +116,55 @@ func VX_C15_write() {
 		err = f.ToJSON(w)
 	}
 	vx.Check(vx.Implies(w.failed, err != nil), "a failed write is reported")
+	vx.Reach("end")
+}
+
+// vxByteFailWriter accepts okBytes bytes and then fails.
+type vxByteFailWriter struct {
+	okBytes int
+	n       int
+	failed  bool
+}
+
+func (w *vxByteFailWriter) Write(p []byte) (int, error) {
+	if w.n+len(p) > w.okBytes {
+		k := w.okBytes - w.n
+		if k < 0 {
+			k = 0
+		}
+		w.n += k
+		w.failed = true
+		return k, vxBoom
+	}
+	w.n += len(p)
+	return len(p), nil
+}
+
+// VX_C15_write_big: a large frame (more rows and more text than any internal buffer);
+// the writer fails a few bytes before the end of the output.
+func VX_C15_write_big() {
+	n := vx.ParamInt("n")
+	a := make([]int, n)
+	for k := range a {
+		a[k] = 100000 + k
+	}
+	f := New(map[string]interface{}{"a": a})
+	full := &vxBuf{}
+	var err error
+	if vx.ParamStr("op") == "tojson" {
+		err = f.ToJSON(full)
+	} else {
+		err = f.ToCSV(full)
+	}
+	vx.Check(err == nil, "clean writer: no error")
+	short := vxConc(vx.IntN(1, 3), 4) // the solver picks how many bytes before the end
+	w := &vxByteFailWriter{okBytes: len(full.b) - short}
+	if vx.ParamStr("op") == "tojson" {
+		err = f.ToJSON(w)
+	} else {
+		err = f.ToCSV(w)
+	}
+	vx.Check(w.failed, "the writer did fail")
+	vx.Check(err != nil, "a write failure near the end of a large output is reported")
 	vx.Reach("end")
 }
